@@ -186,6 +186,9 @@ class CentralizedTaskingEngine(TaskingEngine):
             Query(Observation)
             .join(Epoch)
             .filter(Epoch.timestampISO == datetime_epoch.isoformat(timespec="microseconds"))
+            # Each engine only loads the observations made by its own sensors, otherwise every
+            #   engine hands every imported observation to the filters (duplicates)
+            .filter(Observation.sensor_id.in_(self.sensor_list))
         )
         imported_observation_data = self._importer_db.getData(query)
 
